@@ -178,7 +178,9 @@ def replay_findings(ctx):
         d = {"doc": w.get("doc"), "cls": "finding", "path": ()}
         if "raw" in w:
             d["raw"] = w["raw"]
-        cases.append(Case("kf%d" % i, w["schema"], [d], minsized=w.get("minsized", False), extra_imports=w.get("extra_imports", False), fam="finding"))
+        cases.append(Case("kf%d" % i, w["schema"], [d], minsized=w.get("minsized", False), extra_imports=w.get("extra_imports", False), fam="finding",
+                          extra_files=w.get("extra_files"), argv=w.get("argv"), mappings=[tuple(m) for m in w["mappings"]] if w.get("mappings") else None,
+                          no_model=bool(w.get("extra_files"))))
         if w.get("wire"):
             cases[-1].wire = w["wire"]
     run_cases(ctx, cases, "findings")
@@ -188,6 +190,11 @@ def replay_findings(ctx):
         o = c.docs[0].get("obs") or {}
         if exp == "BUILD":
             fails = c.gen_ok and not c.build_ok
+        elif exp == "ROUNDTRIP":
+            try:
+                fails = o.get("v") == "ACC" and json.loads(o.get("out", "null")) != w.get("doc")
+            except Exception:
+                fails = True
         elif exp == "NOPANIC":
             fails = o.get("v") in ("PANIC", "FATAL")
         else:
